@@ -129,6 +129,7 @@ def _impl(tier, seed, search):
                 if a is None or not isinstance(a, np.ndarray) or a.shape != tuple(sh): return False
                 if type(x).__name__ in ('SE2', 'SE3') and not geom.se_residual(np.asarray(a, float)) <= 1e-6: return False
                 if type(x).__name__ in ('SO2', 'SO3') and not geom.so_residual(np.asarray(a, float)) <= 1e-6: return False
+                if type(x).__name__ == 'UnitQuaternion' and not abs(float(np.linalg.norm(np.asarray(a, float))) - 1.0) <= 1e-6: return False
         return True
     reps = 1 if tier == 'quick' else 3
     for _ in range(reps):
@@ -138,8 +139,18 @@ def _impl(tier, seed, search):
                     for (ml, mr) in ((1, 1), (2, 2), (1, 2), (2, 1)):
                         if (ml > 1 or mr > 1) and not (l in LISTY and r in LISTY): continue
                         want = documented(l, r, op)
-                        if want is None: continue
                         inp = dict(left=l, right=r, op=op, len_left=ml, len_right=mr)
+                        if want is None:
+                            # the documentation leaves the cell open; whatever comes back must still be a well-formed object of its class
+                            L.count('dispatch(unspecified)', key=(l, r, op, ml, mr))
+                            try: xu = f(mk(l, ml), mk(r, mr))
+                            except Exception: continue
+                            if {l, r} == {'Quaternion', 'UnitQuaternion'} and classify(xu) != ('cls', 'Quaternion'):
+                                # "Quaternion with UnitQuaternion gives Quaternion": if the mixed pair yields anything under an operator, it is a Quaternion
+                                L.fail(f'documented:{l}{op}{r}', f'{l} {op} {r} returned {classify(xu)[-1]}; a Quaternion combined with a UnitQuaternion gives a Quaternion (or raises)', inp, observed=classify(xu), required=('cls', 'Quaternion'))
+                            if xu is None or xu is NotImplemented or not elements_ok(xu):
+                                L.fail(f'foreign-elements:{l}{op}{r}', f'{l} {op} {r} returned {"None" if xu is None else "an object holding elements that do not belong to its class (" + type(xu).__name__ + ")"}', inp)
+                            continue
                         L.count('dispatch', key=(l, r, op, ml, mr)); L.sample(f'dispatch:{op}', inp)
                         try:
                             x = f(mk(l, ml), mk(r, mr)); got = classify(x)
